@@ -8,6 +8,7 @@ from props import _engineb
 
 ID = "C12"
 LEVEL = "other"
+REPLAY = "replay/engineb_beyond.py"      # ./check --replay of a side-check record (tools/replay_one.py)
 
 BOUNDS = ("_from_state_amplitudes: every basis string for N = 1..4 with one amplitude, every ordered pair of "
           "distinct strings for N <= 3 (a sample of pairs at N = 4; all pairs in thorough), concrete Gaussian-rational "
@@ -102,6 +103,8 @@ SPEC = dict(
         "assumption A4), operator names other than gg/gr/rg/rr (the code has no others), the {'0','1'} basis (the code "
         "raises NotImplementedError), COO matrices handed to SparseOperator (the class documents CSR), CUDA sparse "
         "kernels, floating-point rounding."),
+    # bounded, sampled complement on real torch: the same harness cases at sizes beyond the symbolic bound, random values
+    native_falsifier="replay/engineb_beyond.py",
     controls=CONTROLS, quick_controls=QUICK_CONTROLS, exhaustive=False,
     min_cases=dict(quick=500, thorough=900),
     assumptions=[
